@@ -286,6 +286,8 @@ module Make (I : INST) = struct
     | ["OUTBOXEQ"; p; k] -> outbox_len s p = ios k
     | ["NOEVENTS"] -> noevents s
     | ["DEPTHEQ"; k] -> int_of_n s.McSys.st_depth = ios k
+    | ["DEPTHLE"; k] -> int_of_n s.McSys.st_depth <= ios k
+    | ["ALL"] -> true
     | _ -> failwith "bad COLLECT"
   let opt_n = function Some k -> Some (n_of_int k) | None -> None
 
